@@ -118,6 +118,9 @@ def run(ck):
         vals = [rng.randint(1, 30) for _ in range(n)]
         groups.append(agree_group(vals, k, rng, ilp=(not q and i % 10 == 0)))
         ck.cat("agreement_groups")
+    for g in gen.near_equal_large(rng, 12 if q else 250):      # large, relatively close values (tolerance comparisons, precision): exact solvers must still agree
+        groups.append(agree_group(g["vals"], g["k"], rng, ilp=False))
+        ck.cat("agreement_groups_large_near_equal")
     # WIDE values: with values up to a few thousand the dynamic program holds hundreds of thousands of distinct states (a cap on the states kept, or any
     # other size-dependent shortcut, only shows here); one dp call takes about half a minute, so only a handful
     for i in range(4 if q else 24):
